@@ -204,6 +204,75 @@ plain_inst = Plain()
 '''
 
 
+NESTED_PATTERNS = ([pat for pat in itertools.product((0, 1), repeat=3)]
+                   + [(0, 0, 0, 0), (0, 1, 0, 1), (1, 0, 0, 0), (0, 0, 1, 1), (2, 0, 2), (0, 0, 0, 0, 0)])
+
+
+def nested_partial_checks(rep, mod, d, inner):
+    """nested partials of the same wrapper; the pattern gives the number of further positionals
+    each level binds, innermost level first"""
+    n = 0
+    kw_names = [name_of(q[0]) for q in d['params'] if q[1] in ('PK', 'KO')]
+    for wname in ('w_pos', 'Plain.run'):
+        for pat in NESTED_PATTERNS:
+            if wname != 'w_pos' and pat not in ((0, 0, 0), (0, 1, 0), (0, 0, 0, 0)):
+                continue
+            for kw in ([{}] + ([{kw_names[-1]: 7}] if kw_names and pat[-1] == 0 else [])):
+                total = sum(pat)
+                flat = functools.partial(inner, *([0] * total), **kw)
+                try:
+                    with warnings.catch_warnings():
+                        warnings.simplefilter('ignore')
+                        exp = describe_sig(PS.signature(flat))
+                except Exception:  # noqa: BLE001
+                    continue        # more positionals than inner takes / a keyword it cannot hold
+                cur = inner
+                levels = []
+                for lv, extra in enumerate(pat):
+                    top = kw if lv == len(pat) - 1 else {}
+                    if wname == 'w_pos':
+                        cur = functools.partial(mod.w_pos, cur, *([0] * extra), **top)
+                    else:
+                        cur = functools.partial(mod.Plain.run, mod.plain_inst, cur, *([0] * extra), **top)
+                    levels.append(cur)
+                label = '%s nested %d levels binding %s further positionals (innermost first)%s' % (
+                    'partial(%s, <callee>, ...)' % wname, len(pat), list(pat), (' and keyword %s on top' % list(kw)) if kw else '')
+                n += 1
+                try:
+                    with warnings.catch_warnings():
+                        warnings.simplefilter('ignore')
+                        sig = sigtools.signature(cur)
+                    got = describe_sig(sig)
+                except Exception as e:  # noqa: BLE001
+                    rep.violation('C19:discover-nested', 'sigtools.signature(%s) raised %s for inner%s' % (label, classify_exc(e), show_sig(d)),
+                                  {'kind': 'discover', 'sig': d})
+                    continue
+                if shape_of(got) != shape_of(exp):
+                    # a call on which the reported signature and the object really differ
+                    wit = ''
+                    for npos in range(0, len(d['params']) + 2):
+                        try:
+                            sig.bind(*([0] * npos))
+                            adv = True
+                        except TypeError:
+                            adv = False
+                        try:
+                            cur(*([0] * npos))
+                            real = True
+                        except TypeError:
+                            real = False
+                        if adv != real:
+                            wit = '; the call with %d positionals is %s by the reported signature but really %s' % (
+                                npos, 'accepted' if adv else 'rejected', 'succeeds' if real else 'raises TypeError')
+                            break
+                    rep.violation('C19:discover-nested', '%s with inner%s: discovered %s, expected %s (every level is a partial object looked through with its bound positionals)%s'
+                                  % (label, show_sig(d), show_sig(got), show_sig(exp), wit), {'kind': 'discover', 'sig': d})
+                    continue
+                if not any(k is cur and v == 0 for k, v in sig.sources['+depths'].items()):
+                    rep.violation('C19:discover-depth', '%s: the outermost partial object does not have depth 0' % label, {'kind': 'discover', 'sig': d})
+    return n
+
+
 def discovery_checks(ctx, rep, sigs):
     ns = {}
     exec(compile(PROGS, '<c19-progs>', 'exec'), ns)
@@ -285,6 +354,11 @@ def discovery_checks(ctx, rep, sigs):
                 if shape_of(gotc) != shape_of(inner_sig):
                     rep.violation('C19:discover-chain', '%s with inner%s: discovered %s, expected the parameters of inner' % (label, show_sig(d), show_sig(gotc)),
                                   {'kind': 'discover', 'sig': d})
+            # partial objects of ONE forwarding wrapper nested in each other, each level holding the
+            # next one as its bound callee (3 and 4 levels), every level binding 0 or 1 further
+            # positional, optionally a keyword on top: every level is looked through, so the result is
+            # the plain signature of partial(inner, <all bound positionals>, <keyword>)
+            n += nested_partial_checks(rep, mod, d, inner)
             # keyword binding does not resolve the callee: plain partial signature
             p2 = functools.partial(mod.w_pos, callee=inner)
             n += 1
